@@ -60,6 +60,11 @@ func madd(acc, a, b interface{}) interface{} {
 
 // contract computes the general contraction of a and b over the paired axes (textbook definition).
 func contract(a, b ref.Arr, axesA, axesB []int) ref.Arr {
+	for i := range axesA {
+		if axesA[i] >= len(a.Shape) || axesB[i] >= len(b.Shape) || a.Shape[axesA[i]] != b.Shape[axesB[i]] {
+			return ref.Arr{DT: a.DT, Shape: []int{-1}} // no defined result
+		}
+	}
 	inA, inB := map[int]bool{}, map[int]bool{}
 	for _, x := range axesA {
 		inA[x] = true
@@ -98,10 +103,7 @@ func contract(a, b ref.Arr, axesA, axesB []int) ref.Arr {
 			cb[ax] = oc[len(freeA)+i]
 		}
 		var acc interface{}
-		if len(cshape) == 0 {
-			acc = madd(nil, a.At(ca), b.At(cb))
-		}
-		ref.ForCoords(cshape, func(cc []int) {
+		ref.ForCoords(cshape, func(cc []int) { // an empty contraction runs once: the plain product
 			for i := range cc {
 				ca[axesA[i]] = cc[i]
 				cb[axesB[i]] = cc[i]
@@ -191,6 +193,7 @@ func laExec(r *core.Run, c laCase) (*core.Fail, string) {
 	}
 	// model
 	var want ref.Arr
+	invalid := false
 	vecLen := func(s []int) int { return ref.Prod(s) }
 	asVec := func(a ref.Arr) ref.Arr { return ref.Arr{DT: a.DT, Shape: []int{len(a.El)}, El: a.El} }
 	switch c.op {
@@ -219,6 +222,14 @@ func laExec(r *core.Run, c laCase) (*core.Fail, string) {
 		sa, sb := tensor.Shape(c.sa), tensor.Shape(c.sb)
 		switch {
 		case sa.IsVector() && sb.IsVector():
+			if len(arrA.El) != len(arrB.El) {
+				// documented dispatch: two vector-shaped operands are an inner product; unequal lengths have no result
+				// (NumPy would multiply (m,1)x(1,n) as matrices - the library documents the vector rule, so only a
+				// refusal is acceptable here)
+				want = ref.Arr{}
+				invalid = true
+				break
+			}
 			want = contract(asVec(arrA), asVec(arrB), []int{0}, []int{0})
 		case sa.IsVector() && len(sb) == 2:
 			want = contract(asVec(arrA), arrB, []int{0}, []int{0})
@@ -235,6 +246,10 @@ func laExec(r *core.Run, c laCase) (*core.Fail, string) {
 		}
 	}
 	_ = vecLen
+	if len(want.Shape) == 1 && want.Shape[0] == -1 {
+		invalid = true
+		want = ref.Arr{}
+	}
 	// destination
 	var opts []tensor.FuncOpt
 	var dst *tensor.Dense
@@ -344,6 +359,9 @@ func laExec(r *core.Run, c laCase) (*core.Fail, string) {
 	if o.Class != "ok" {
 		return nil, o.Class
 	}
+	if invalid {
+		return core.F("accepted-invalid", "inv", "%s has no defined result (vector operands of unequal length) but was computed", what), o.Class
+	}
 	approx := c.vs == "frac" || d.Class == ref.CComplex
 	if c.op == "Inner" || c.op == "Trace" {
 		if scalarRes == nil {
@@ -393,7 +411,14 @@ func laRun(r *core.Run, c laCase) {
 }
 
 // c09Tag recognises the preconditions of the recorded C09 findings.
-func c09Tag(c laCase, kind string) string { return "" }
+func c09Tag(c laCase, kind string) string {
+	// precondition of F-C09-dot-inner-ignores-destination: Dot dispatches two vector-shaped operands to the inner
+	// product, whose scalar result is always returned as a fresh tensor
+	if c.op == "Dot" && kind == "retval-identity" && c.mode != "safe" && tensor.Shape(c.sa).IsVector() && tensor.Shape(c.sb).IsVector() {
+		return "[KF:dot-inner-ignores-destination]"
+	}
+	return ""
+}
 
 func runC09(r *core.Run) {
 	quick := isQuick(r)
